@@ -72,7 +72,9 @@ class ImplBase:
         return out
 
     def call(self, actor, fn, *a):
-        self.env._active_proc = self.actor(actor) if actor is not None else None
+        # actor 0 is "set-up code": it calls from outside any SimPy process (env.active_process is None, as in the library's own tests);
+        # the other actors are processes.  Ownership is decided by equality, and None == None.
+        self.env._active_proc = self.actor(actor) if actor not in (None, 0) else None
         try:
             return ("val", fn(*a))
         except Exception as e:       # outcome class is part of the observable
